@@ -4,7 +4,7 @@
    correspondence run of ./check C05. *)
 From Coq Require Import List ZArith Bool.
 Import ListNotations.
-From LC Require Import Base Tree Fp Lookup Api ApiStep TreeFacts ApiFacts.
+From LC Require Import Base Tree Fp Lookup Api ApiStep TreeFacts ApiFacts NewSetting.
 Local Open Scope Z_scope.
 
 (* an addition, removal or assignment that reports failure leaves the configuration unchanged and
@@ -165,3 +165,14 @@ Proof. reflexivity. Qed.
 Example ex_set_mismatch_fails :
   snd (fst (api_step ex_cfg (OSet KString [0%nat] (AS (Some [104]))))) = RInt 0.
 Proof. reflexivity. Qed.
+
+(* a group never accepts a member whose name is not a name (a letter or an asterisk, then letters, digits, - _ and
+   asterisks): the empty name, a leading digit,
+   an embedded blank ... - config_setting_add returns NULL (and by C05_add_failure_atomic nothing changes) *)
+Theorem C05_invalid_name_refused : forall ov parent n tcode,
+  s_ty parent = TGroup -> validate_name n = false -> n_add ov parent (Some n) tcode = None.
+Proof. exact NewSetting.n_add_invalid_name_refused. Qed.
+Print Assumptions C05_invalid_name_refused.
+Example C05_invalid_names : validate_name [] = false /\ validate_name [49; 97]%Z = false /\ validate_name [97; 32]%Z = false /\
+  validate_name [97; 45; 42; 95; 57]%Z = true.
+Proof. exact NewSetting.empty_name_invalid. Qed.
